@@ -13,23 +13,34 @@ OBLIGATIONS = [
     "Pkgcore.C43.tree_shaped_collapses",
     "Pkgcore.C43.cycle_or_missing_is_error",
     "Pkgcore.C43.history_collapse_is_current",   # the rendered-section cache is never stale across add_config_source / reload
+    "Pkgcore.C43.default_nearest_definition",    # the `default` flag comes from the first section that sets it (false shadows true)
+    "Pkgcore.C43.anon_collapse_nearest_definition",   # anonymous/inline sections: nearest definition below the node (None, section)
+    "Pkgcore.C43.anon_tree_shaped_collapses",
+    "Pkgcore.C43.anon_cycle_or_missing_is_error",
+    "Pkgcore.C43.history_anon_collapse_is_current",   # an anonymous collapse depends on the current sources only, not on earlier collapses
     "Pkgcore.C43.expand_measure",       # the decrease that makes `loop` (well-founded recursion) terminate on any graph
 ]
 TRUSTED = [
     "typed rendering of values (convert_asis / convert_string / ini parsing, ConfigType introspection) is glue: sections are modelled as "
-    "(inherit list, inherit-only flag, string items); exercised by generating every case as HardCodedConfigSection, "
-    "ConfigSectionFromStringDict and ini text",
+    "(inherit list, inherit-only flag, string items; a value is opaque, 'sets the key' = the key is present); exercised by generating "
+    "every case as HardCodedConfigSection, ConfigSectionFromStringDict and ini text with list/bool/str/int typed keys whose values "
+    "include the empty ones ([], False, '', 0, ini no/0/false)",
+    "the name None of an anonymous section is modelled by a reserved name that the driver refuses in inputs",
     "termination of _get_inherited_sections on arbitrary graphs is the well-founded-recursion obligation discharged when Lean "
     "accepts Pkgcore.C43.loop (measure: not-yet-inherited names, then total size of pending self-inherit trees)",
 ]
 ASSUMPTIONS = ["section names are unique within one config source (sources are mappings)",
-               "autoload sections and section references (ref:/refs: typed keys) are outside this property"]
+               "autoload sections and named section references (ref:/refs: keys naming other sections) are outside this property; inline "
+               "sections held by a refs: key are collapsed as anonymous sections and are covered"]
 RULE = ("1-4 config sources over section names A-F (+ one undefined name), built as random trees with sections spread over sources and "
         "self-inherits to the earlier source, then optionally perturbed (extra edge = cycle or diamond, deleted target, duplicate name in an "
         "inherit list); every defined name collapsed; non-trivial = the breadth-first order has >= 3 nodes, or the error is an "
         "inheritance error (missing target / self-inherit without earlier source / cycle); plus histories on one manager: collapse some "
         "names, add_config_source (a further source of the same generated configuration) or reload, collapse again ... each answer compared "
-        "with a manager created afresh over the current sources (non-trivial = a source was added after a collapse)")
+        "with a manager created afresh over the current sources (non-trivial = a source was added after a collapse, or >= 2 anonymous "
+        "sections were collapsed); sections carry list/bool/str/int typed keys with empty values (explicit empty overrides); histories "
+        "interleave collapse_section([inline section]) calls (anonymous sections inheriting from the named ones, any concrete form) "
+        "and end by collapsing a holder whose refs: key holds all the inline sections of the history")
 LEVEL_TEXT = ("Kernel-checked Lean 4 theorems about a model of ConfigManager section lookup, _get_inherited_sections and collapse_section: "
               "the lookup stacks are the sections of all sources latest-first; whenever collapsing succeeds the relevant sections are exactly "
               "the generations of the inheritance graph in breadth-first order and every key has the value of the first section in that "
@@ -40,6 +51,50 @@ LEVEL_NOTE = "Trusted: Lean kernel, standard axioms; value rendering/typing glue
 NAMES = list("ABCDEF")
 GHOST = "Z"   # never defined
 KEYS = ["k1", "k2", "k3", "k4"]
+# typed keys of the generated class; values are written as the text an ini file would hold
+TYPED = {"seq": "list", "flag": "bool", "text": "str", "num": "int"}
+EMPTY = {"seq": [""], "flag": ["false", "no", "0"], "text": [""], "num": ["0"]}
+FULL = {"seq": ["a", "b c"], "flag": ["true", "yes", "1"], "text": ["x", "two words"], "num": ["5", "12"]}
+TRUE_WORDS = ("yes", "true", "1")
+
+
+def typed(key, v):
+    """the Python value a HardCodedConfigSection holds for the text `v` of `key`"""
+    t = "bool" if key == "default" else TYPED.get(key, "str")
+    if t == "list":
+        return v.split()
+    if t == "bool":
+        return v.lower() in TRUE_WORDS
+    if t == "int":
+        return int(v)
+    return v
+
+
+def canon(key, value):
+    """canonical text of a rendered value"""
+    if isinstance(value, bool):
+        return "true" if value else "false"
+    if isinstance(value, (list, tuple)):
+        return " ".join(value)
+    return str(value)
+
+
+def want_cfg(pairs):
+    """expected collapsed config from the reference's / model's raw strings"""
+    return sorted((k, canon(k, typed(k, v))) for k, v in pairs)
+
+
+def want_default(raw):
+    return False if raw is None else typed("default", raw)
+
+
+def fit_forms(sources, forms):
+    """convert_asis has no int type: int-typed keys only live in string based sections"""
+    for src, form in zip(sources, forms):
+        if form == "hard":
+            for sec in src.values():
+                sec["items"].pop("num", None)
+    return sources
 
 
 def _install_class():
@@ -49,10 +104,15 @@ def _install_class():
     if mod is None:
         mod = types.ModuleType("verif_c43_mod")
 
-        @configurable(allow_unknowns=True, typename="c43thing")
+        @configurable(types=dict(TYPED), allow_unknowns=True, typename="c43thing")
         def thing(**kw):
             return kw
         mod.thing = thing
+
+        @configurable(types={"kids": "refs:c43thing"}, typename="c43holder")
+        def holder(**kw):
+            return kw
+        mod.holder = holder
         sys.modules["verif_c43_mod"] = mod
     return mod.thing
 
@@ -84,11 +144,15 @@ def gen_case(rng):
             sec = {"inherit": inh if (inh or rng.random() < 0.1) else None, "inherit_only": False, "items": {}}
             for k in KEYS:
                 if rng.random() < 0.35:
-                    sec["items"][k] = "%s%d%s" % (n.lower(), s, k) if rng.random() < 0.9 else "two words"
+                    r = rng.random()
+                    sec["items"][k] = "%s%d%s" % (n.lower(), s, k) if r < 0.8 else ("two words" if r < 0.9 else "")
+            for k in TYPED:
+                if rng.random() < 0.3:
+                    sec["items"][k] = rng.choice(EMPTY[k] if rng.random() < 0.45 else FULL[k])
             if rng.random() < 0.45:
                 sec["items"]["class"] = "verif_c43_mod.thing"
             if rng.random() < 0.1:
-                sec["items"]["default"] = rng.choice(["true", "false"])
+                sec["items"]["default"] = rng.choice(["true", "false", "yes", "no", "1", "0"])
             sources[s][n] = sec
     # make sure most cases have a class somewhere near the leaves
     for s in sources:
@@ -123,7 +187,32 @@ def gen_case(rng):
         sec["inherit"] = [n] + (sec["inherit"] or [])
     sources = [s for s in sources if s] or [{}]
     forms = [rng.choice(["hard", "strdict", "ini"]) for _ in sources]
-    return sources, forms
+    return fit_forms(sources, forms), forms
+
+
+def gen_anon(rng, names, big=False):
+    """an anonymous (inline) section inheriting from the named ones + the concrete form it is built in"""
+    r = rng.random()
+    if r < 0.08 or not names:
+        inh = None
+    else:
+        inh = rng.sample(names, min(len(names), rng.choice([1, 1, 1, 2])))
+        if r > 0.9:
+            inh.insert(rng.randrange(len(inh) + 1), GHOST)
+    sec = {"inherit": inh, "inherit_only": False, "items": {}}
+    for k in KEYS[:2]:
+        if rng.random() < 0.3:
+            sec["items"][k] = "anon-" + k if rng.random() < 0.85 else ""
+    for k in TYPED:
+        if rng.random() < 0.25:
+            sec["items"][k] = rng.choice(EMPTY[k] if rng.random() < 0.5 else FULL[k])
+    if rng.random() < (0.3 if inh else 0.9):
+        sec["items"]["class"] = "verif_c43_mod.thing"
+    if rng.random() < 0.1:
+        sec["items"]["default"] = rng.choice(["true", "false"])
+    form = rng.choice(["hard", "strdict", "ini"])
+    fit_forms([{"_": sec}], [form])
+    return sec, form
 
 
 def to_model(sources):
@@ -146,7 +235,7 @@ def build_source(src, form):
             if sec["inherit_only"]:
                 txt.append("inherit-only = true")
             for k, v in sec["items"].items():
-                txt.append("%s = %s" % (k, v))
+                txt.append(("%s = %s" % (k, v)).rstrip())
         return cparser.config_from_file(io.StringIO("\n".join(txt) + "\n"))
     d = {}
     for n, sec in src.items():
@@ -158,8 +247,8 @@ def build_source(src, form):
         for k, v in sec["items"].items():
             if form == "hard" and k == "class":
                 v = thing
-            elif form == "hard" and k == "default":
-                v = (v == "true")
+            elif form == "hard":
+                v = typed(k, v)
             raw[k] = v
         d[n] = basics.HardCodedConfigSection(raw) if form == "hard" else basics.ConfigSectionFromStringDict(raw)
     return d
@@ -177,11 +266,17 @@ ERR_PATTERNS = [
 ]
 
 
-def impl_collapse(mgr, name):
+def build_section(sec, form):
+    """one section object (for collapse_section / inline refs) in the requested concrete form"""
+    return build_source({"inline": sec}, form)["inline"]
+
+
+def impl_collapse(mgr, name, section=None):
+    """collapse the named section, or (section given) the anonymous section object"""
     from pkgcore.config import errors
     from snakeoil.errors import walk_exception_chain
     try:
-        c = mgr.collapse_named_section(name)
+        c = mgr.collapse_named_section(name) if section is None else mgr.collapse_section([section])
     except errors.ConfigurationError as e:
         msgs = [str(x) for x in walk_exception_chain(e)]
         for m in reversed(msgs):
@@ -190,7 +285,7 @@ def impl_collapse(mgr, name):
                     arg = m.split("'")[1] if "'" in m and kind not in ("inheritOnly", "noClass") else None
                     return {"err": kind, "arg": arg} if arg is not None else {"err": kind}
         return {"err": "other", "msgs": msgs}
-    return {"ok": sorted((k, str(v)) for k, v in c.config.items()), "default": c.default}
+    return {"ok": sorted((k, canon(k, v)) for k, v in c.config.items()), "default": c.default}
 
 
 # ------------------------------------------------------------------ corpus
@@ -230,6 +325,17 @@ CORPUS = [
     ([{"A": S(**{"class": CLS})}], "B"),
     # inherited default flag
     ([{"A": S(["B"], **{"class": CLS}), "B": S(default="true", k1="b")}], "A"),
+    # "sets the key" = the key is present: an explicitly empty value in the nearer section shadows the farther one, for every
+    # value type (list, bool, str, int, the default flag), in the section itself / a nearer base / a later source of the same name
+    ([{"A": S(["B"], seq="", flag="false", text="", num="0", k1="", default="false"),
+       "B": S(seq="a b", flag="true", text="x", num="5", k1="b", default="true", **{"class": CLS})}], "A"),
+    ([{"A": S(["B", "C"]), "B": S(seq="", flag="no", text="", num="0"),
+       "C": S(seq="c", flag="yes", text="c", num="7", **{"class": CLS})}], "A"),
+    ([{"A": S(seq="old", flag="1", text="old", num="3", default="yes", **{"class": CLS})},
+      {"A": S(["A"], seq="", flag="0", text="", num="0", default="no")}], "A"),
+    ([{"A": S(["B"], flag="false"), "B": S(["C"], flag="true", seq=""), "C": S(seq="c", flag="false", **{"class": CLS})}], "A"),
+    # a lone empty value is still a value
+    ([{"A": S(seq="", flag="false", text="", num="0", **{"class": CLS})}], "A"),
 ]
 
 
@@ -241,9 +347,11 @@ def run(ctx):
         for c in ctx.replay_cases:
             if "sources" in c:
                 cases.append((c["sources"], c["forms"], c["name"]))
+    import copy
     for sources, name in CORPUS:
         for form in ("hard", "strdict", "ini"):
-            cases.append((sources, [form] * len(sources), name))
+            forms = [form] * len(sources)
+            cases.append((fit_forms(copy.deepcopy(sources), forms), forms, name))
     for _ in range(ctx.n(3000, 60000)):
         sources, forms = gen_case(rng)
         defined = sorted({n for s in sources for n in s})
@@ -308,13 +416,19 @@ def run(ctx):
                 ctx.count("order_has_self_inherit")
         # ---- the property on the real code (edge C)
         if "ok" in spec:
-            want = sorted(map(tuple, spec["ok"]))
+            want = want_cfg(spec["ok"])
             if "ok" not in impl:
                 ctx.violation(case, f"tree-shaped inheritance should collapse to {want}, the implementation reports {impl}")
                 continue
             if [tuple(x) for x in impl["ok"]] != want:
                 ctx.violation(case, f"collapsed config {impl['ok']} differs from the nearest definitions {want}")
                 continue
+            if impl["default"] != want_default(spec["default"]):
+                ctx.violation(case, f"default flag is {impl['default']}; the first section that sets 'default' sets it to "
+                                    f"{spec['default']!r}")
+                continue
+            if any(v in ("", "false", "0") for _, v in want):
+                ctx.count("empty_value_wins")
         elif spec.get("err") in ("missing", "cyclic"):
             if "ok" in impl:
                 ctx.violation(case, f"inheritance graph has a {spec['err']} problem but collapsing succeeded: {impl['ok']}")
@@ -324,8 +438,8 @@ def run(ctx):
             continue
         # ---- model vs implementation (edge A)
         if "ok" in model:
-            m = {"ok": sorted(map(tuple, model["ok"]))}
-            i = {"ok": [tuple(x) for x in impl["ok"]]} if "ok" in impl else impl
+            m = {"ok": want_cfg(model["ok"]), "default": want_default(model["default"])}
+            i = {"ok": [tuple(x) for x in impl["ok"]], "default": impl["default"]} if "ok" in impl else impl
         else:
             m, i = model, {k: v for k, v in impl.items()}
         if m != i:
@@ -334,7 +448,7 @@ def run(ctx):
         if "ok" in impl and ctx.evaluations % 5 == 0:
             try:
                 inst = mgr.objects.c43thing[name]
-                if sorted((k, str(v)) for k, v in inst.items()) != impl["ok"]:
+                if sorted((k, canon(k, v)) for k, v in inst.items()) != impl["ok"]:
                     ctx.mismatch(case, f"objects.c43thing[{name!r}] = {inst} differs from collapsed config {impl['ok']}")
             except Exception as e:
                 ctx.mismatch(case, f"instantiating through manager.objects raised {type(e).__name__}: {e}")
@@ -353,6 +467,7 @@ def gen_history(rng):
     init, later = sources[:k], sources[k:]
     names = sorted({n for s in sources for n in s})
     ops = []
+    n_anon = rng.choice([0, 2, 2, 3, 4])
     for src, form in [(None, None)] + list(zip(later, forms[k:])):
         if src is not None:
             ops.append({"op": "add", "source": src, "form": form})
@@ -360,8 +475,12 @@ def gen_history(rng):
             ops.append({"op": "reload"})
         picks = [n for n in names if rng.random() < 0.7] or names[:1]
         rng.shuffle(picks)
-        for n in picks:
-            ops.append({"op": "collapse", "name": n})
+        batch = [{"op": "collapse", "name": n} for n in picks]
+        # inline sections collapsed through the same manager, between the named ones
+        for _ in range(rng.randint(0, n_anon)):
+            sec, form = gen_anon(rng, names)
+            batch.insert(rng.randrange(len(batch) + 1), {"op": "anon", "section": sec, "form": form})
+        ops += batch
         if rng.random() < 0.15:
             ops.append({"op": "reload"})
             ops.append({"op": "collapse", "name": rng.choice(names)})
@@ -378,6 +497,17 @@ HISTORY_CORPUS = [
     ([{"A": S(["B"], **{"class": CLS}), "B": S(k1="b")}], [{"B": S(["A"])}], ["A", "B"]),                       # a cycle appears
 ]
 
+# sequences of anonymous (inline) sections through one manager: (sources, [anonymous sections])
+_RB = [{"R": S(k1="red", k2="red", **{"class": CLS}), "B": S(k1="blue", k3="blue", **{"class": CLS})}]
+ANON_CORPUS = [
+    (_RB, [S(["R"], k3="x"), S(["B"], k2="y")]),                                     # different bases
+    (_RB, [S(["R"]), S(["Z"], **{"class": CLS})]),                                  # a missing target after a good one
+    (_RB, [S(["Z"], **{"class": CLS}), S(["R"])]),                                  # and the other way round
+    (_RB, [S(["R", "B"]), S(["B", "R"]), S(["B"]), S(k1="own", **{"class": CLS})]),  # order of bases, no inherit at all
+    ([{"R": S(["B"], k1="r"), "B": S(k1="b", k2="b", **{"class": CLS})}, {"B": S(["B"], k2="b-new")}],
+     [S(["B"]), S(["R"]), S(["R"], k1="")]),                                         # self-inherit below, empty override on top
+]
+
 
 def run_histories(ctx):
     from pkgcore.config import central
@@ -390,11 +520,27 @@ def run_histories(ctx):
                 ops.append({"op": "add", "source": a, "form": form})
                 ops += [{"op": "collapse", "name": n} for n in names]
             hist.append((init, [form] * len(init), ops))
+    import copy
+    for sources, anons in ANON_CORPUS:
+        for form in ("hard", "strdict", "ini"):
+            forms = [form] * len(sources)
+            ops = []
+            for a in anons:
+                a = copy.deepcopy(a)
+                fit_forms([{"_": a}], [form])
+                ops.append({"op": "anon", "section": a, "form": form})
+            ops.append({"op": "collapse", "name": sorted(sources[0])[0]})
+            hist.append((fit_forms(copy.deepcopy(sources), forms), forms, ops + copy.deepcopy(ops[:2])))
     for _ in range(ctx.n(400, 15000)):
         hist.append(gen_history(rng))
-    reqs = [{"cmd": "c43.history", "sources": to_model(init),
-             "ops": [({"op": "add", "source": to_model([o["source"]])[0]} if o["op"] == "add" else o) for o in ops]}
-            for init, _, ops in hist]
+
+    def op_model(o):
+        if o["op"] == "add":
+            return {"op": "add", "source": to_model([o["source"]])[0]}
+        if o["op"] == "anon":
+            return {"op": "anon", "section": to_model([{"inline": o["section"]}])[0][0]}
+        return o
+    reqs = [{"cmd": "c43.history", "sources": to_model(init), "ops": [op_model(o) for o in ops]} for init, _, ops in hist]
     replies = []
     for i in range(0, len(reqs), 5000):
         replies += ctx.model(reqs[i:i + 5000])
@@ -411,6 +557,7 @@ def run_histories(ctx):
         current, cur_forms = list(init), list(forms)
         added = collapsed_before = False
         ok = True
+        inline = []       # (section, form) of every anonymous section of the history
         for i, (op, m) in enumerate(zip(ops, rep)):
             step = dict(case, failing_step=i)
             try:
@@ -423,23 +570,33 @@ def run_histories(ctx):
                 if op["op"] == "reload":
                     mgr.reload()
                     continue
-                impl = impl_collapse(mgr, op["name"])
+                if op["op"] == "anon":
+                    what = "the anonymous section %r" % (op["section"],)
+                    inline.append((op["section"], op["form"]))
+                    ctx.count("anon_form_" + op["form"])
+                    impl = impl_collapse(mgr, None, build_section(op["section"], op["form"]))
+                    # ---- the property on the real code: same answer as a manager created now over the current sources
+                    fresh = impl_collapse(build_manager(current, cur_forms), None, build_section(op["section"], op["form"]))
+                else:
+                    what = repr(op["name"])
+                    impl = impl_collapse(mgr, op["name"])
+                    fresh = impl_collapse(build_manager(current, cur_forms), op["name"])
             except Exception as e:
                 ctx.violation(step, f"{op['op']} raised {type(e).__name__}: {e}")
                 ok = False
                 break
             collapsed_before = True
             ctx.evaluations += 1
-            # ---- the property on the real code: same answer as a manager created now over the current sources
-            fresh = impl_collapse(build_manager(current, cur_forms), op["name"])
-            if {k: v for k, v in impl.items() if k != "default"} != {k: v for k, v in fresh.items() if k != "default"}:
-                ctx.violation(step, f"collapsing {op['name']!r} after this history gives {impl}; a manager created over the current "
+            if impl != fresh:
+                ctx.violation(step, f"collapsing {what} after this history gives {impl}; a manager created over the current "
                                     f"sources gives {fresh}")
                 ok = False
                 break
             spec = m["spec"]
-            if "ok" in spec and ("ok" not in impl or [tuple(x) for x in impl["ok"]] != sorted(map(tuple, spec["ok"]))):
-                ctx.violation(step, f"nearest definitions over the current sources are {spec['ok']}; the manager answers {impl}")
+            if "ok" in spec and ("ok" not in impl or [tuple(x) for x in impl["ok"]] != want_cfg(spec["ok"])
+                                 or impl["default"] != want_default(spec["default"])):
+                ctx.violation(step, f"nearest definitions over the current sources are {want_cfg(spec['ok'])} (default "
+                                    f"{spec['default']!r}); the manager answers {impl} for {what}")
                 ok = False
                 break
             if spec.get("err") in ("missing", "cyclic") and "ok" in impl:
@@ -448,12 +605,47 @@ def run_histories(ctx):
                 break
             # ---- model vs implementation
             model = m["model"]
-            mm = {"ok": sorted(map(tuple, model["ok"]))} if "ok" in model else model
-            ii = {"ok": [tuple(x) for x in impl["ok"]]} if "ok" in impl else dict(impl)
+            mm = {"ok": want_cfg(model["ok"]), "default": want_default(model["default"])} if "ok" in model else model
+            ii = {"ok": [tuple(x) for x in impl["ok"]], "default": impl["default"]} if "ok" in impl else dict(impl)
             if mm != ii:
                 ctx.mismatch(step, f"implementation {impl}, model {model}")
                 ok = False
                 break
+        if ok and len(inline) >= 2:
+            ok = check_holder(ctx, case, mgr, current, cur_forms, inline)
         ctx.count("history_ops_%d" % min(40, len(ops) // 10 * 10))
+        ctx.count("history_anon_%d" % min(len(inline), 6))
         if ok:
-            ctx.case(case, added and collapsed_before, key=None)
+            ctx.case(case, (added and collapsed_before) or len(inline) >= 2, key=None)
+
+
+def check_holder(ctx, case, mgr, current, cur_forms, inline):
+    """the way inline sections are really used: a holder whose refs: key holds all the inline sections of the history, collapsed
+    through the long-lived manager; every kid must equal the same inline section collapsed alone on a fresh manager"""
+    from pkgcore.config import basics, errors
+    holder = sys.modules["verif_c43_mod"].holder
+    step = dict(case, failing_step="holder of all inline sections")
+    try:
+        alone = [impl_collapse(build_manager(current, cur_forms), None, build_section(sec, form)) for sec, form in inline]
+        sect = basics.HardCodedConfigSection({"class": holder, "kids": [build_section(sec, form) for sec, form in inline]})
+        try:
+            kids = mgr.collapse_section([sect]).config["kids"]
+        except errors.ConfigurationError:
+            kids = None
+    except Exception as e:
+        ctx.violation(step, f"collapsing a holder of the inline sections raised {type(e).__name__}: {e}")
+        return False
+    ctx.evaluations += 1
+    if kids is None:
+        if all("ok" in a for a in alone):
+            ctx.violation(step, f"every inline section collapses alone ({alone}) but a refs: holder of them fails to collapse")
+            return False
+        ctx.count("holder_error")
+        return True
+    got = [{"ok": sorted((k, canon(k, v)) for k, v in c.config.items()), "default": c.default} for c in kids]
+    if got != alone:
+        ctx.violation(step, f"inline sections {[s for s, _ in inline]} held by a refs: key collapse to {got}; each alone on a "
+                            f"manager over the current sources gives {alone}")
+        return False
+    ctx.count("holder_ok")
+    return True
